@@ -46,4 +46,31 @@ BatchEventOk(e) ==
   /\ \A k \in 1..Len(e.coef) :                      \* coefficient encoding reduces modulo t, decoding inverts it
        /\ e.coef[k].poly = [i \in 1..Len(e.coef[k].vals) |-> Mod(e.coef[k].vals[i], t)]
        /\ e.coef[k].back = e.coef[k].poly
+
+(***************************************************************************)
+(* Plain moduli beyond native integers (up to 60 bits): what can be stated *)
+(* without naming psi.  Values are BigNat limb arrays.                     *)
+(*   rt    : decode(encode(v)) = v (zero padded), coefficients canonical   *)
+(*   pairs : decode is a ring homomorphism: for encoder outputs A, B the   *)
+(*           polynomial A*B mod (X^n+1, t) - formed by the harness in      *)
+(*           128-bit arithmetic - decodes to the slot-wise product and     *)
+(*           A+B to the slot-wise sum                                      *)
+(*   rot   : the automorphism of step s rotates both rows left by s,       *)
+(*           step 0 (column swap) exchanges the rows                       *)
+(* An encoding with these properties is the evaluation isomorphism up to   *)
+(* the order of the slots; the rotations tie the order to the generator.   *)
+(***************************************************************************)
+SumModOk(a, b, t, r) == BLt(r, t) /\ (BAdd(a, b) = r \/ BAdd(a, b) = BAdd(r, t))
+BatchBigOk(e) ==
+  LET n == e.n  t == e.t IN
+  /\ \A k \in 1..Len(e.rt) :
+       /\ e.rt[k].dec = e.rt[k].v
+       /\ \A i \in 1..n : BLt(e.rt[k].poly[i], t)
+  /\ \A k \in 1..Len(e.pairs) :
+       LET p == e.pairs[k] IN
+       \A i \in 1..n : /\ DivModCert(BMul(p.a[i], p.b[i]), t, p.h[i], p.prod[i])
+                        /\ SumModOk(p.a[i], p.b[i], t, p.sum[i])
+  /\ \A k \in 1..Len(e.rot) :
+       IF e.rot[k].s = 0 THEN e.rot[k].out = SwapRowsV(e.rot[k].inp, n)
+       ELSE e.rot[k].out = RotRowsV(e.rot[k].inp, e.rot[k].s % (n \div 2), n)
 ==============================================================================
